@@ -106,6 +106,13 @@ class ContextExit:
 REG = "json_to_models/dynamic_typing/string_serializable.py::StringSerializableRegistry"
 
 
+@spec
+def registry_wf(r):
+    """data invariant of a StringSerializableRegistry: replace entries are pairs, every type is a class registered once"""
+    return forall(as_set(attr_of(r, "replaces")), lambda p: p is tuple2(at(p, 0), at(p, 1))) \
+        and distinct(as_list(attr_of(r, "types"))) and forall(as_list(attr_of(r, "types")), lambda t: is_class(t))
+
+
 @contract("json_to_models/dynamic_typing/string_datetime.py::register_datetime_classes", props=["C09"], verify=False)
 class RegisterDatetime:
     modifies = ["types", "replaces"]
@@ -175,6 +182,7 @@ class RegistryRemoveByName:
             "named_classes_gone": forall(self.types, lambda t: not (cls_name(t) == name or cls_name(clsattr(t, "actual_type")) == name)),
             "others_kept": forall(old(self.types), lambda t: implies(not (cls_name(t) == name or cls_name(clsattr(t, "actual_type")) == name), t in self.types)),
             "nothing_added": forall(self.types, lambda t: t in old(self.types)),
+            "still_well_formed": registry_wf(self),
         }
 
 
